@@ -77,3 +77,28 @@ Definition serve (cfg : option access) (st : state) (r : auth_request) : state *
   | v => (st, v)
   end.
 End Auth.
+
+(* The trusted set of an account is the replay of its device event log
+   (reducers/src/device.rs DeviceReducer::reduce): Trust inserts the device unless one with the same
+   public key is present (IndexSet, TrustedDevice's Eq/Hash are by public key), Revoke removes the
+   device with that key, every other event is skipped.  Keys only. *)
+Section Devices.
+Variable key : Type.
+Variable key_eqb : key -> key -> bool.
+Inductive dev_event := DevTrust (k : key) | DevRevoke (k : key) | DevOther.
+Definition dev_step (ds : list key) (e : dev_event) : list key :=
+  match e with
+  | DevTrust k => if existsb (key_eqb k) ds then ds else ds ++ [k]
+  | DevRevoke k => filter (fun d => negb (key_eqb d k)) ds
+  | DevOther => ds
+  end.
+Definition reduce_devices (log : list dev_event) : list key := fold_left dev_step log [].
+(* the last event of the log that names k *)
+Fixpoint last_about (k : key) (log : list dev_event) (acc : option bool) : option bool :=
+  match log with
+  | [] => acc
+  | DevTrust j :: r => last_about k r (if key_eqb j k then Some true else acc)
+  | DevRevoke j :: r => last_about k r (if key_eqb j k then Some false else acc)
+  | DevOther :: r => last_about k r acc
+  end.
+End Devices.
